@@ -2,7 +2,7 @@
 Budgets are chosen from measured costs (see DESIGN.md section 6); every tier also has a
 global wall-clock deadline after which it reports exhaustive:false instead of running on."""
 import time, sys, os
-import mcdriver, progs
+import mcdriver, progs, seqchecks
 from mcdriver import Job
 
 QUICK_WALL = 170       # seconds: scheduling of new programs stops after this
@@ -207,6 +207,7 @@ def run_C16(tier):
     return generic('C16', tier, J, 'DFS over schedules of lockers / waiters / wakers with a thread calling the debug-state functions (all mutual-exclusion, progress and wake-up oracles in force); exhaustive n = 0..80 x 0..3 queued waiters x 4 functions against the untruncated reference with exact-size buffers between red zones', sample_every=4)
 
 TABLE = {
+    'C17': seqchecks.run_C17, 'C18': seqchecks.run_C18,
     'C01': run_C01, 'C03': run_C03, 'C04': run_C04, 'C05': run_C05, 'C06': run_C06, 'C07': run_C07, 'C08': run_C08, 'C09': run_C09, 'C10': run_C10, 'C11': run_C11, 'C13': run_C13, 'C14': run_C14, 'C16': run_C16,
     'C02': run_C02,
     'C12': run_C12,
